@@ -569,7 +569,7 @@ class Interp:
     # ------------------------------------------------------------- statements
     def _count(self):
         self._n += 1
-        if self._n > (self.budget or MAX_PATHS * 20):
+        if self._n > (self.budget or MAX_PATHS * 6):
             raise AnalysisError('path budget exceeded')
 
     def exec_block(self, stmts, st: St, fr: DynFrame):
@@ -1870,6 +1870,17 @@ class Interp:
             raises |= set(SIGNALS)
         if user:
             raises.add(USER_EXC)
+            # user code may raise anything: every class an enclosing handler of this
+            # function chain names specifically is a way out of its own
+            for level in self._try_stack:
+                for caught in level:
+                    if caught.startswith('ext:') and caught in (
+                            'ext:BaseException', 'ext:Exception', 'ext:object'):
+                        continue
+                    if any(self.p.is_subclass(caught, signal) or
+                           self.p.is_subclass(signal, caught) for signal in SIGNALS):
+                        continue
+                    raises.add(caught)
         returns = base or user or any(s.returns for s in summaries) or not summaries
         results = []
         common = dict(how=how, callees=callees, base=base, user=user, susp=susp,
